@@ -78,6 +78,8 @@ def _worker_init():
             sim.unraisable.append((type(args.exc_value).__name__, str(args.exc_value)))
 
     sys.unraisablehook = _unraisable
+    gc.collect()
+    gc.freeze()  # everything imported so far is permanent: explicit collections stay cheap
     _worker_ready = True
 
 
